@@ -57,6 +57,13 @@ type subject struct {
 	estWords  int    // word count as far as the harness can tell without asking (coverage counters only)
 	firstEnum string // the enumeration that ran first in the last enumerate call
 	unobs     int    // mutating operations since the last observing call on this object
+
+	// coverage of "leave the other operand untouched" beyond the call itself: after a Merge
+	// that made the receiver longer, word index+1 from which its words came from the operand
+	// (tookLo, on the receiver) / went to a receiver (gaveLo, on the operand); 0 = none
+	tookLo, gaveLo int
+	isClone        bool // the object is the result of a Clone call
+	afterBulk      bool // the last mutating operation on this object was a bulk operation (as receiver)
 }
 
 // observed is called by every observing call that is really made (not deferred).
@@ -112,6 +119,24 @@ var guardNames = func() map[string]*[3]string {
 
 func (s *subject) gn(method string) string { return guardNames[method][s.k] }
 
+// callKeys: coverage counter "calls_<Kind>.<Method>" for every guarded golib call, so that
+// the floors can demand that every method the statement names is really called on every
+// type that has it.
+var callKeys = func() map[string]*[3]string {
+	t := map[string]*[3]string{}
+	for m, n := range guardNames {
+		t[m] = &[3]string{"calls_" + n[0], "calls_" + n[1], "calls_" + n[2]}
+	}
+	return t
+}()
+
+// methodsOf lists, per kind, the methods of the statement that the type has.
+var methodsOf = [3][]string{
+	kBits:   {"Add", "Remove", "Contains", "Len", "Cap", "Grow", "Iter", "Range", "All", "Clone", "Diff", "Intersect", "Merge"},
+	kBitmap: {"Add", "Remove", "Contains", "Len", "Cap", "Grow", "Iter", "Range", "Clone", "Diff", "Intersect", "Merge"},
+	kDsz:    {"Add", "Remove", "Contains", "Len", "Cap", "Grow", "Iter"},
+}
+
 var golibFiles = []string{ev.GolibPath, "/setz/bits.go", "/setz/iter.go", "/dsz/bits.go"}
 
 // guard wraps one or more golib calls: a panic raised while a golib frame is on
@@ -121,6 +146,7 @@ var golibFiles = []string{ev.GolibPath, "/setz/bits.go", "/setz/iter.go", "/dsz/
 // recognised here by file.
 func (s *subject) guard(method string, fn func()) bool {
 	name := s.gn(method)
+	s.c.Add(callKeys[method][s.k], 1)
 	own := false
 	ok := s.c.Guard(name, func() {
 		defer func() {
@@ -302,6 +328,24 @@ func (s *subject) lenOK(ctx string) bool {
 
 // ---- element operations ----
 
+// noteAlias counts the element operations that would show storage shared between a Merge
+// receiver and its (longer) operand: a change of membership in a word the receiver got from
+// the operand, made on either side. Every live object is re-observed after the operation.
+func (s *subject) noteAlias(x uint) {
+	if s.afterBulk {
+		s.afterBulk = false
+		s.c.Add("membership_changed_by_element_operation_right_after_bulk_operation_"+kindName[s.k], 1)
+	}
+	if s.tookLo > 0 && int(x>>6) >= s.tookLo-1 {
+		s.c.Add("merge_receiver_edited_in_words_taken_from_operand", 1)
+		s.tookLo = 0
+	}
+	if s.gaveLo > 0 && int(x>>6) >= s.gaveLo-1 {
+		s.c.Add("merge_operand_edited_in_words_given_to_receiver", 1)
+		s.gaveLo = 0
+	}
+}
+
 func (s *subject) add(x uint) bool {
 	want := !s.has(x)
 	words := s.words()
@@ -328,9 +372,12 @@ func (s *subject) add(x uint) bool {
 	if want {
 		s.m[x] = struct{}{}
 		s.cacheInsert(x)
+		s.noteAlias(x)
 		s.c.Add("add_new", 1)
 		if int(x>>6) >= words {
 			s.c.Add("add_beyond_capacity", 1)
+		} else {
+			s.c.Add("add_new_within_capacity", 1)
 		}
 		if x&63 == 63 || x&63 == 0 {
 			s.c.Add("add_at_word_edge", 1)
@@ -419,6 +466,7 @@ func (s *subject) remove(x uint) bool {
 	if want {
 		delete(s.m, x)
 		s.cacheDelete(x)
+		s.noteAlias(x)
 		s.c.Add("remove_present", 1)
 	} else {
 		s.c.Add("remove_absent", 1)
@@ -427,6 +475,8 @@ func (s *subject) remove(x uint) bool {
 			if int(x>>6) == words {
 				s.c.Add("remove_first_word_beyond_capacity", 1)
 			}
+		} else {
+			s.c.Add("remove_absent_within_capacity", 1)
 		}
 	}
 	if s.k == kDsz {
@@ -969,6 +1019,7 @@ func (s *subject) deepEnumerate(ctx string) bool {
 		return false
 	}
 	c.Add("early_stops", 1)
+	c.Add("early_stops_Range_"+kindName[s.k], 1)
 	if len(seen) != k {
 		s.fail("range-stop", ctx, "Range with a callback returning false at call %d made %d calls", k, len(seen))
 		return false
@@ -992,6 +1043,7 @@ func (s *subject) deepEnumerate(ctx string) bool {
 		return false
 	}
 	c.Add("early_stops", 1)
+	c.Add("early_stops_All_Bits", 1)
 	if len(seen) != k {
 		s.fail("all-stop", ctx, "All with a break at element %d yielded %d elements", k, len(seen))
 		return false
@@ -1170,6 +1222,16 @@ func (s *subject) bulk(op int, o *subject) bool {
 		c.Add("bulk_"+opCtx[op]+"_with_16_or_more_words", 1)
 	}
 	self := s == o
+	s.afterBulk = true
+	if op == opMerge && ow > sw && !self {
+		s.tookLo, o.gaveLo = sw+1, sw+1
+	}
+	if sw == 0 {
+		c.Add("bulk_"+opCtx[op]+"_receiver_without_words", 1)
+	}
+	if ow == 0 {
+		c.Add("bulk_"+opCtx[op]+"_operand_without_words", 1)
+	}
 	s.setModel(n)
 	if o.hi > s.hi {
 		s.hi = o.hi
@@ -1254,6 +1316,11 @@ func (s *subject) clone(name string) *subject {
 		shuffle: s.shuffle, sparse: s.sparse, estWords: s.estWords}
 	s.c.Logf("%s := %s.Clone() (%d members)", name, s.name, len(s.m))
 	s.c.Add("clones", 1)
+	s.c.Add("clones_of_"+kindName[s.k], 1)
+	n.isClone = true
+	if s.isClone {
+		s.c.Add("clones_of_a_clone", 1)
+	}
 	if len(s.m) > 0 {
 		s.c.Add("clones_nonempty", 1)
 	}
